@@ -67,6 +67,13 @@ def dev_outcomes(ctx, dev):
 
 def harness(ctx, vecs, hostile):
     inp = os.path.join(ctx.work, "codec_vecs.json")
+    if os.environ.get("VERIF_SELFTEST_CORRUPT"):
+        # binding self-test: one structural number of one spec layout is wrong -> the run must end as "binding broken"
+        import copy
+        vecs = copy.deepcopy(vecs)
+        run = [r for r in vecs[len(vecs) // 2]["runs"] if r["c"] == "n"][0]
+        run["v"] += 1
+        ctx.log("SELFTEST: corrupted a length cell of the spec layout of shape %d" % (len(vecs) // 2))
     vf.write_json(inp, {"vecs": vecs, "hostile": hostile})
     q = ctx.quick()
     env = {"ZZV_IN": inp, "ZZV_MUT": 100 if q else 1500, "ZZV_RAND": 2000 if q else 40000,
